@@ -34,10 +34,16 @@ class C05(Prop):
                 case["ratio"] = rng.choice([0.1, 0.5, 0.8, 1.0])
                 case["incMem"] = rng.random() < 0.5
                 case["prefix"] = draw_prefix(rng)
+                if k % 4 == 3:      # the second public entry point of the aggregator: user-annotation breakdown
+                    case["entry"] = "anno"
+                    case["gpu"] = rng.random() < 0.5
+                    case["allow"] = rng.random() < 0.3
                 return case
         raise RuntimeError("no device activities")
 
     def observe(self, case: Dict[str, Any]) -> Dict[str, Any]:
+        if case.get("entry") == "anno":
+            return self._observe_anno(case)
         with hta.CaseDir("c05") as d:
             ta = write_and_load(case, d)
             ranks = sorted(ta.t.traces)
@@ -58,7 +64,35 @@ class C05(Prop):
                 obs["err"] = hta.exc_str(ex)
             return obs
 
+    def _observe_anno(self, case: Dict[str, Any]) -> Dict[str, Any]:
+        with hta.CaseDir("c05a") as d:
+            ta = write_and_load(case, d, include_last=True)
+            ranks = sorted(ta.t.traces)
+            cat = "gpu_user_annotation" if case["gpu"] else "user_annotation"
+            st = ta.t.symbol_table.get_sym_table()
+            obs = {"prop": "C05A", "err": "", "numK": case["numK"], "allow": bool(case["allow"]), "ranks": [], "kernels": []}
+            for r in ranks:
+                df = ta.t.get_trace(r)
+                annos = [{"id": int(i), "name": st[int(n)], "dur": hta.ival(du)} for i, n, c, du in zip(df["index"], df["name"], df["cat"], df["dur"]) if st[int(c)] == cat]
+                obs["ranks"].append({"rank": r, "rows": [], "annos": annos})
+            if not any(rk["annos"] for rk in obs["ranks"]):
+                return {"skip": True}
+            try:
+                res = ta.get_gpu_user_annotation_breakdown(use_gpu_annotation=case["gpu"], visualize=False, duration_ratio=case["ratio"],
+                                                           num_kernels=case["numK"], allowlist_patterns=["ProfilerStep", "my_region"] if case["allow"] else None)
+                if res is None:
+                    obs["err"] = "returned None although annotations exist"
+                    return obs
+                for t in res[["name", "sum (us)", "max (us)", "min (us)", "mean (us)", "rank"]].itertuples(index=False):
+                    obs["kernels"].append({"name": str(t[0]), "sum": hta.ival(t[1]), "max": hta.scaled(t[2], 1), "min": hta.scaled(t[3], 1),
+                                           "mean1000": hta.scaled(t[4], 1000), "type": "", "rank": hta.ival(t[5])})
+            except Exception as ex:
+                obs["err"] = hta.exc_str(ex)
+            return obs
+
     def nontrivial(self, case, obs) -> bool:
+        if obs.get("prop") == "C05A":
+            return any(len({a["name"] for a in rk["annos"]}) > obs["numK"] for rk in obs["ranks"])
         names = {}
         for rk in obs["ranks"]:
             for x in rk["rows"]:
